@@ -620,6 +620,28 @@ theorem emu_draw_across_resizes_any (dec : String → G) (cw : String → Nat) (
     exact draw_shows_cursor dec cw (clipIn cw fi) e' sg.rows sg.cols hi hsh'
       (fun hv => by have := (hfiok.1.2.2.2 hv).2.2; exact_mod_cast this)
 
+/-! ### the wire, against the renderer's underline templates (sequences.go, regenerated) -/
+
+open VaxisModel.Model.C12Replies VaxisModel.Lemmas.C12Wire in
+omit [CapsOkU caps] in
+/-- **The styled-underline templates on the wire**: for every index / channel / style value the bytes
+    `render()` produces from `ulIndexSet`, `ulRGBSet`, `ulStyleSet` and the constant `ulColorReset`
+    (regenerated from sequences.go on every run: `Gen.TermReplies.strConst`) parse to the sequence `opsOf`
+    hands to the emulator model for the renderer model's token (`58:5:i`, `58:2:r:g:b`, `4:n` with colon
+    sub-parameters, `59`). Completes `C12Caps.facts_wire_sgr` for the vocabulary of `CapsOkU`. -/
+theorem facts_wire_ul (dec : String → G) (tw : String → Nat) (i r g b n : Nat) :
+    wireMatches (instFmt (strC "ulIndexSet") [intBytes i]) (opsOf dec tw (.sgr [[58, 5, i]])) = true ∧
+    wireMatches (instFmt (strC "ulRGBSet") [intBytes r, intBytes g, intBytes b]) (opsOf dec tw (.sgr [[58, 2, r, g, b]])) = true ∧
+    wireMatches (instFmt (strC "ulStyleSet") [intBytes n]) (opsOf dec tw (.sgr [[4, n]])) = true ∧
+    wireMatches (strC "ulColorReset") (opsOf dec tw (.sgr [[59]])) = true := by
+  have h1 : strC "ulIndexSet" = [27, 91, 53, 56, 58, 53, 58, 37, 100, 109] := by decide
+  have h2 : strC "ulRGBSet" = [27, 91, 53, 56, 58, 50, 58, 37, 100, 58, 37, 100, 58, 37, 100, 109] := by decide
+  have h3 : strC "ulStyleSet" = [27, 91, 52, 58, 37, 100, 109] := by decide
+  refine ⟨?_, ?_, ?_, rfl⟩
+  · rw [h1]; simp [instFmt, opsOf, wireMatches, csiWire, paramBytes, sgrParam, List.intercalate, intBytes, natDigits]
+  · rw [h2]; simp [instFmt, opsOf, wireMatches, csiWire, paramBytes, sgrParam, List.intercalate, intBytes, natDigits]
+  · rw [h3]; simp [instFmt, opsOf, wireMatches, csiWire, paramBytes, sgrParam, List.intercalate, intBytes, natDigits]
+
 /-! ### instances and non-vacuity -/
 
 /-- Everything the emulator's `sgr()` implements: direct colour and styled underlines. -/
